@@ -1390,6 +1390,29 @@ func c11Run(ctx *core.Ctx, env *c11Env, d interface {
 
 	// ---- L1c: configured bloom filters contain every stored value
 	if len(c.b.Bloom) > 0 {
+		paths := c.schema.Columns()
+		for _, rg := range outInfo {
+			for ci := range rg {
+				if ci >= len(paths) {
+					continue
+				}
+				if _, has := c.b.Bloom[strings.Join(paths[ci], ".")]; !has || rg[ci].BloomOff == 0 {
+					continue
+				}
+				dictPages, plainPages := 0, 0
+				for _, p := range rg[ci].Pages {
+					switch p.Enc {
+					case int(format.RLEDictionary), int(format.PlainDictionary):
+						dictPages++
+					case int(format.Plain):
+						plainPages++
+					}
+				}
+				if rg[ci].HasDict && dictPages > 0 && plainPages > 0 {
+					ctx.Hist("bloom-filter-on-chunk-with-dictionary-fallback-mid-chunk", pathSig)
+				}
+			}
+		}
 		misses, err := c11BloomMisses(out.file)
 		if err != nil {
 			ctx.Fail("L1", "bloom-filter-unreadable "+sig+" "+errClass(err), "bloom filters of the output cannot be checked: "+err.Error(), detail(extra))
@@ -1891,6 +1914,36 @@ func c11Build(ctx *core.Ctx, env *c11Env, e *gen.Entry, r *rand.Rand, kind strin
 	return c
 }
 
+// c11DictLeaves: non-boolean leaves whose schema asks for dictionary encoding
+func c11DictLeaves(schema *parquet.Schema) (out [][]string) {
+	for _, p := range schema.Columns() {
+		leaf, ok := schema.Lookup(p...)
+		if !ok || leaf.Node.Type().Kind() == parquet.Boolean {
+			continue
+		}
+		if enc := leaf.Node.Encoding(); enc != nil && enc.Encoding() == format.RLEDictionary {
+			out = append(out, p)
+		}
+	}
+	return
+}
+
+// c11FallbackBloom turns the destination of a built case into one whose dictionary-encoded column
+// `path` carries a bloom filter and overflows its dictionary in the middle of the chunk (small
+// DictionaryMaxBytes, small pages): the filter is pre-sized by WriteRowGroup and must contain the
+// values of the dictionary pages written before the switch to PLAIN as well as the later ones.
+func c11FallbackBloom(r *rand.Rand, c *c11Case, path []string) {
+	dm := []int64{48, 200, 1000}[r.Intn(3)]
+	pb := []int{48, 200}[r.Intn(2)]
+	bpv := []uint{8, 10, 16}[r.Intn(3)]
+	nb := *c.b
+	nb.Opts = append(append([]parquet.WriterOption{}, c.b.Opts...), parquet.DictionaryMaxBytes(dm), parquet.PageBufferSize(pb),
+		parquet.BloomFilters(parquet.SplitBlockFilter(bpv, path...)))
+	nb.Bloom = map[string]uint{strings.Join(path, "."): bpv}
+	nb.Desc = c.b.Desc + fmt.Sprintf(" | dictmax:=%d pagebuf:=%d bloom:=%d@%s (dictionary fallback under a pre-sized filter)", dm, pb, bpv, strings.Join(path, "."))
+	c.b = &nb
+}
+
 // F9 as a fixed case, run first: source with page statistics and ColumnIndexSizeLimit 64,
 // destination DataPageStatistics(false) and limit 8.
 func c11F9(ctx *core.Ctx, env *c11Env, d interface {
@@ -1983,6 +2036,36 @@ func RunC11(ctx *core.Ctx) {
 						c11Run(ctx, env, nil, c, false)
 					} else {
 						c11Run(ctx, env, d, c, ei == 1 && k == 0 && ki < 4)
+					}
+				}
+			}
+			// dictionary fallback in the middle of a chunk under a bloom filter, per dictionary leaf
+			rf := ctx.Rand("c11-fallback/" + e.Name)
+			for _, path := range c11DictLeaves(e.Schema) {
+				for _, kind := range []string{"buffer", "file", "multi", "merged-packed"} {
+					for k := 0; k < ctx.Scale(1, 6); k++ {
+						env := &c11Env{chunkOf: map[*parquet.FileColumnChunk]*c11Chunk{}}
+						var c *c11Case
+						func() {
+							defer func() {
+								if rec := recover(); rec != nil {
+									ctx.Fail("L1", "panic-building-source kind="+kind, fmt.Sprintf("building the source row group panicked: %v", rec), map[string]any{"type": e.Name, "kind": kind})
+								}
+							}()
+							c = c11Build(ctx, env, e, rf, kind, []int{130, 257, 600}[rf.Intn(3)])
+						}()
+						if c == nil {
+							continue
+						}
+						if _, ok := c.schema.Lookup(path...); !ok {
+							continue
+						}
+						c11FallbackBloom(rf, c, path)
+						if d == nil {
+							c11Run(ctx, env, nil, c, false)
+						} else {
+							c11Run(ctx, env, d, c, false)
+						}
 					}
 				}
 			}
